@@ -182,7 +182,15 @@ func (r *Run) Outcomes(m map[string]int64) {
 func (r *Run) NotExhaustive(why string) {
 	r.mu.Lock()
 	r.exhaustive = false
-	r.bounds = append(r.bounds, "CAPPED: "+why)
+	dup := false
+	for _, b := range r.bounds {
+		if b == "CAPPED: "+why {
+			dup = true
+		}
+	}
+	if !dup {
+		r.bounds = append(r.bounds, "CAPPED: "+why)
+	}
 	r.mu.Unlock()
 	r.capped.Store(true)
 }
